@@ -488,7 +488,7 @@ def with_oracle(pid, extra_fn=None):
     return run
 
 
-for _p in ("C14", "C19", "C10", "C11", "C09"):
+for _p in ("C14", "C19", "C10", "C11", "C09", "C05", "C03"):
     EXTRA[_p] = with_oracle(_p)
 
 
